@@ -7,9 +7,23 @@ RECV_TYPES = ["PULL", "SUB", "DEALER", "ROUTER", "REP", "XPUB"]
 
 
 def hx(b):
+    """frame notation for scripts: hex, or for large frames ending in a long run of one byte the compact form "~len:fill:prefix" (engine.rs hexs)"""
     if isinstance(b, str):
         b = b.encode()
+    if len(b) > 512:
+        fill = b[-1:]
+        pre = b.rstrip(fill)
+        if len(pre) < 200:
+            return "~%d:%s:%s" % (len(b), fill.hex(), pre.hex())
     return b.hex()
+
+
+def unhx(s):
+    if s.startswith("~"):
+        n, fill, pre = s[1:].split(":")
+        b = bytes.fromhex(pre)
+        return (b + bytes.fromhex(fill) * int(n))[:int(n)]
+    return bytes.fromhex(s)
 
 
 def frame(rng, tag, kind=None):
